@@ -1407,6 +1407,25 @@ def mappings_outside(source_map_json, text):
     return bad
 
 
+def string_parts(t):
+    """a string value as a list of ('lit', str) | ('code', z3 Int code point) | ('opaque', term)"""
+    if isinstance(t, str):
+        return [('lit', t)] if t else []
+    if z3.is_string_value(t):
+        s = t.as_string()
+        return [('lit', s)] if s else []
+    if z3.is_app(t) and t.decl().kind() == z3.Z3_OP_SEQ_CONCAT:
+        out = []
+        for ch in t.children():
+            out.extend(string_parts(ch))
+        return out
+    if z3.is_app(t) and t.decl().name() in ('str.from_code', 'char.from_code') and t.num_args() == 1:
+        return [('code', t.arg(0))]
+    if z3.is_app(t) and t.decl().kind() == z3.Z3_OP_SEQ_UNIT:
+        return [('opaque', t)]
+    return [('opaque', t)]
+
+
 def nondummy_spans(v, acc):
     if isinstance(v, (list, tuple)):
         for x in v:
@@ -1517,12 +1536,23 @@ class ToConfigScenario:
         else:
             # the prefix is the concatenation of the characters pushed by rnd_string: six of them, each a lower-case letter
             # (decided on the character-code terms; the string-level query times out in z3)
-            pushed = ctx.notes.get('pushed_chars', [])
-            if len(pushed) != 6 or len(g.rands) != 6:
-                vio('defaults/random-prefix-length', True, '%d characters from %d random draws' % (len(pushed), len(g.rands)))
-            for i, ch in enumerate(pushed):
-                cz = ch if isinstance(ch, z3.ExprRef) else z3.IntVal(ch)
-                vio('defaults/random-prefix-not-lowercase-letter', z3.Not(z3.And(cz >= 97, cz <= 122)), 'character %d = %s' % (i, str(ch)[:60]))
+            # (decided on the character-code terms the string is built from, however it was built -- push, collect, concat;
+            # the string-level query `len = 6 and in [a-z]{6}` times out in z3)
+            parts = string_parts(c['local_var_prefix'])
+            if any(k == 'opaque' for k, _ in parts):
+                raise Unsupported('random prefix is not a concatenation of characters: %s' % str(c['local_var_prefix'])[:200])
+            nchars = sum(1 if k == 'code' else len(x) for k, x in parts)
+            if nchars != 6 or len(g.rands) != 6:
+                vio('defaults/random-prefix-length', True, '%d characters from %d random draws' % (nchars, len(g.rands)))
+            i = 0
+            for k, x in parts:
+                if k == 'code':
+                    vio('defaults/random-prefix-not-lowercase-letter', z3.Not(z3.And(x >= 97, x <= 122)), 'character %d = %s' % (i, str(x)[:60]))
+                    i += 1
+                else:
+                    for ch in x:
+                        vio('defaults/random-prefix-not-lowercase-letter', not ('a' <= ch <= 'z'), 'character %d = %r' % (i, ch))
+                        i += 1
         ms = c['csi_methods']['methods']
         exp_ms = inp['methods'] or []
         if len(ms) != len(exp_ms):
